@@ -576,7 +576,7 @@ func c19Run(c *Ctx, noReg bool, names []string, evs []event, line string) runRes
 			if ev.a.kind == "AS" && ev.scope == 'T' && ev.a.ex.kind != 'M' {
 				bound[ev.a.name] = true
 			}
-			if ev.a.kind == "AS" && ev.a.ex.kind == 'M' && !bound[ev.a.ex.y] && object.Constant(ev.a.ex.y) {
+			if ev.a.kind == "AS" && ev.a.ex.kind == 'M' && !bound[ev.a.ex.y] && isConst(ev.a.ex.y) {
 				closOf[ev.a.name] = ev.a.ex.y
 			}
 		}
@@ -608,7 +608,7 @@ func c19Run(c *Ctx, noReg bool, names []string, evs []event, line string) runRes
 			cloFirst[g] = out
 		}
 		// (inside a loop the statement runs twice and the second call is passed what the first one wrote)
-		if ev.a.kind == "CA" && ev.scope != 'L' && object.Constant(ev.a.name) && strings.HasPrefix(out, "ok=") && out[3:] != passed {
+		if ev.a.kind == "CA" && ev.scope != 'L' && isConst(ev.a.name) && strings.HasPrefix(out, "ok=") && out[3:] != passed {
 			c.Fail("const-param-changed-"+scopeName(ev.scope), line,
 				fmt.Sprintf("%s step %d %q: the parameter was bound to %s and evaluated to %s", mode, idx, src, passed, out[3:]))
 		}
@@ -627,7 +627,7 @@ func c19Run(c *Ctx, noReg bool, names []string, evs []event, line string) runRes
 		for _, n := range names {
 			v, ins := se.value(n)
 			bs = append(bs, n+"="+v)
-			if !object.Constant(n) {
+			if !isConst(n) {
 				continue
 			}
 			if f, ok := first[n]; ok {
@@ -648,7 +648,7 @@ func c19Run(c *Ctx, noReg bool, names []string, evs []event, line string) runRes
 		}
 		// the attempt itself must not have observed another value for a bound constant: a loop over / a call with the
 		// name returns what the name evaluated to inside
-		if f, ok := firstIns[ev.a.name]; ok && first[ev.a.name] != "" && object.Constant(ev.a.name) && strings.HasPrefix(out, "ok=") {
+		if f, ok := firstIns[ev.a.name]; ok && first[ev.a.name] != "" && isConst(ev.a.name) && strings.HasPrefix(out, "ok=") {
 			if _, bound := first[ev.a.name]; bound {
 				switch ev.a.kind {
 				case "FI", "FL", "CL", "RD":
@@ -721,7 +721,7 @@ func c19Seq(c *Ctx, names []string, evs []event) {
 	var hdr []string
 	for _, n := range names {
 		k := "0"
-		if object.Constant(n) {
+		if object.Constant(n) { // the implementation's classification: compared with the model's constant_name
 			k = "1"
 		}
 		hdr = append(hdr, n+"="+k)
@@ -730,6 +730,12 @@ func c19Seq(c *Ctx, names []string, evs []event) {
 	lineR, lineN := "CST R F "+body, "CST N F "+body
 	r := c19Run(c, false, names, evs, lineR)
 	n := c19Run(c, true, names, evs, lineN)
+	for _, nm := range names { // after the behavioural oracles, so that a changed constant is what gets reported first
+		if object.Constant(nm) != isConst(nm) {
+			c.Fail("constant-classification-"+nameShape(nm), lineR,
+				fmt.Sprintf("object.Constant(%q) = %v, but by the rule (upper-case letter, then upper-case letters, digits, underscores) it is %v", nm, object.Constant(nm), isConst(nm)))
+		}
+	}
 	nontrivial := false
 	tainted := map[string]bool{}
 	for i := range evs {
@@ -740,7 +746,7 @@ func c19Seq(c *Ctx, names []string, evs []event) {
 		// A non-constant loop variable lives in a register in one mode and is a binding in the other (C05's subject):
 		// such a name, and whatever is assigned from it, is not held to agree between the modes.
 		ev := evs[i].a
-		if ev.kind == "FI" && !object.Constant(ev.name) {
+		if ev.kind == "FI" && !isConst(ev.name) {
 			tainted[ev.name] = true
 		}
 		if ev.kind == "AS" && ev.ex.kind != 0 && tainted[ev.ex.y] {
@@ -749,7 +755,7 @@ func c19Seq(c *Ctx, names []string, evs []event) {
 		if ev.kind == "DL" {
 			delete(tainted, ev.name)
 		}
-		if !object.Constant(ev.name) || tainted[ev.name] || (ev.kind == "CA" && tainted[ev.y]) {
+		if !isConst(ev.name) || tainted[ev.name] || (ev.kind == "CA" && tainted[ev.y]) {
 			continue
 		}
 		if (a == "err") != (b == "err") {
@@ -967,6 +973,15 @@ func corpus() ([][]string, [][]event) {
 			}
 		}
 	}
+	// names with digits (incl. 9) and underscores in every position, and mixed-case controls: every kind of attempt
+	for _, n := range []string{"X9", "K19", "MAX_9", "V1_9_0", "Z0", "A1", "B2", "C3", "D4", "E5", "F6", "G7", "H8", "U6_", "X9a", "x9"} {
+		for _, sc := range []byte{'T', 'F'} {
+			add([]string{n}, T(as(n, vi(1))), event{sc, as(n, vi(2))}, event{sc, attempt{kind: "IN", name: n, a: 1}}, event{sc, attempt{kind: "IN", name: n, a: -1, flag: true}},
+				T(attempt{kind: "DL", name: n}), T(as(n, parr(10, 0))), event{sc, ix(n, vi(1), vi(99))}, event{sc, attempt{kind: "FI", name: n, a: 0, b: 3}},
+				event{sc, attempt{kind: "FL", name: n, l: []val{vi(5)}}}, event{sc, attempt{kind: "CL", name: n, v: vi(3)}},
+				T(attempt{kind: "DL", name: n}), T(as(n, pmap(5, 1))), event{sc, attempt{kind: "DE", name: n, k: vi(2)}}, event{sc, ix(n, vi(1), vi(7))}, T(rd(n)))
+		}
+	}
 	// every kind of attempt from nested scopes on an integer constant
 	for _, sc := range []byte{'T', 'F', 'G', 'L'} {
 		add([]string{"K", "x"}, T(as("K", vi(7))),
@@ -988,8 +1003,56 @@ func corpus() ([][]string, [][]event) {
 	return names, seqs
 }
 
-var constNames = []string{"A", "KB", "K_1", "X9", "PJ"}
-var varNames = []string{"x", "kA", "Ab"}
+// What a constant is, from the property ("an all-upper-case identifier") and the comment on object.Constant ("all CAPS
+// (with _ ok in the middle) identifiers"; digits are accepted after the first character): the first character is an
+// upper-case letter, the others upper-case letters, digits or underscores. Computed here, NOT by calling the
+// implementation, so that the oracle does not follow a change of the implementation's classification.
+func isConst(name string) bool {
+	if name == "" {
+		return false
+	}
+	for i := 0; i < len(name); i++ {
+		ch := name[i]
+		switch {
+		case ch >= 'A' && ch <= 'Z':
+		case i > 0 && (ch == '_' || (ch >= '0' && ch <= '9')):
+		default:
+			return false
+		}
+	}
+	return true
+}
+
+func nameShape(n string) string {
+	sh := "letters"
+	if strings.ContainsAny(n, "0123456789") {
+		sh = "digit"
+	}
+	if strings.Contains(n, "_") {
+		sh += "-underscore"
+	}
+	return sh
+}
+
+// digits 0..9 and underscores in every position after the first; mixed-case look-alikes as non-constant controls
+var constNames = []string{"A", "KB", "K_1", "X9", "PJ", "K19", "MAX_9", "V1_9_0", "Z0", "Q2X", "R_3", "S4", "T55", "U6_", "W7_8", "Y8Y", "B__C", "N9_9", "H0_9"}
+var varNames = []string{"x", "kA", "Ab", "X9a", "x9", "K9x", "aB_9", "k_9"}
+
+func randConstName(c *Ctx) string {
+	if c.R.Pct(50) {
+		return constNames[c.R.Intn(len(constNames))]
+	}
+	for {
+		const rest = "ABCXYZ0123456789_"
+		n := string(rune('A' + c.R.Intn(26)))
+		for i := c.R.Intn(5); i > 0; i-- {
+			n += string(rest[c.R.Intn(len(rest))])
+		}
+		if n != "E" && n != "PI" { // bound by the extension layer
+			return n
+		}
+	}
+}
 
 func randNum(c *Ctx) val {
 	switch k := c.R.Intn(10); {
@@ -1123,7 +1186,7 @@ func twin(c *Ctx, v val) (val, bool) {
 
 func c19Random(c *Ctx, nEvents int) {
 	// which names take part
-	names := []string{constNames[c.R.Intn(len(constNames))], constNames[c.R.Intn(len(constNames))], varNames[c.R.Intn(len(varNames))], varNames[c.R.Intn(len(varNames))]}
+	names := []string{randConstName(c), randConstName(c), varNames[c.R.Intn(len(varNames))], varNames[c.R.Intn(len(varNames))]}
 	if names[0] == names[1] {
 		names = names[1:]
 	}
@@ -1139,9 +1202,9 @@ func c19Random(c *Ctx, nEvents int) {
 		sc := scopes[c.R.Intn(len(scopes))]
 		if !has[n] && c.R.Pct(80) {
 			v := randVal(c, 2)
-			if !object.Constant(n) && c.R.Pct(50) { // an alias of a constant's value
+			if !isConst(n) && c.R.Pct(50) { // an alias of a constant's value
 				for _, m := range names {
-					if object.Constant(m) && has[m] {
+					if isConst(m) && has[m] {
 						evs = append(evs, T(asx(n, expr{kind: 'N', y: m})))
 						cur[n], has[n] = cur[m], true
 					}
@@ -1167,7 +1230,7 @@ func c19Random(c *Ctx, nEvents int) {
 				}
 			}
 			a = attempt{kind: "AS", name: n, ex: lit(nv), flag: c.R.Pct(30)}
-			if !object.Constant(n) {
+			if !isConst(n) {
 				cur[n] = nv
 			}
 		case k < 26: // alias-making right-hand sides, from another name (mostly a constant)
@@ -1237,7 +1300,7 @@ func c19Random(c *Ctx, nEvents int) {
 				x = expr{kind: 'N', y: y} // slicing / indexing a string is outside the model
 			}
 			a = attempt{kind: "AS", name: n, ex: x, flag: c.R.Pct(20)}
-			if !object.Constant(n) && (x.kind == 'N' || x.kind == 'R') {
+			if !isConst(n) && (x.kind == 'N' || x.kind == 'R') {
 				cur[n] = yv
 			}
 		case k < 30: // a burst of index writes on one name: same-value writes and changing ones back to back
@@ -1256,7 +1319,7 @@ func c19Random(c *Ctx, nEvents int) {
 					evs = append(evs, event{s2, ix(n, vi(int64(i)), w)})
 					if c.R.Pct(20) {
 						y := names[c.R.Intn(len(names))]
-						evs = append(evs, event{s2, attempt{kind: "CA", name: constNames[c.R.Intn(len(constNames))], y: y, k: randIndex(c, cur[y]), v: randLeaf(c)}})
+						evs = append(evs, event{s2, attempt{kind: "CA", name: randConstName(c), y: y, k: randIndex(c, cur[y]), v: randLeaf(c)}})
 					}
 				}
 				continue
